@@ -178,6 +178,48 @@ pub fn spaces(tier: Tier) -> Vec<Space<'static>> {
             }
         }));
     }
+    {
+        // the same documents as the crate itself produces them -- written by its Value encoder, and cut out
+        // of the parent [d] by get_by_index: the key must be the key of the canonical encoding, and compare
+        // must order them against every document exactly as it orders the canonical encoding (which
+        // "all-pairs" holds against the key order)
+        let (d0, k0) = (d.clone(), keys.clone());
+        sp.push(Space::new("documents as the crate produces them (Value encoder, get_by_index out of [d]): same key, same order against every document", n as u64, move |i, acc| {
+            let i = i as usize;
+            let d = &d0;
+            let v = &d.vals[i];
+            let Ok(kc) = &k0[i] else { return };
+            let own = guard(|| crate::conv::to_value(v).to_vec());
+            let parent = refmodel::layout::enc(&RVal::Arr(vec![v.clone()]));
+            let cut = guard(|| jsonb::get_by_index(&parent, 0));
+            let forms: Vec<(&str, Vec<u8>)> = match (own, cut) {
+                (Ok(o), Ok(Some(c))) => vec![("Value-encoder", o), ("get_by_index([d],0)", c)],
+                other => {
+                    acc.vio("crate-produced-form:cannot-be-produced", || json!({"a": format!("{:?}", v), "observed": format!("{:?}", other.0.is_ok())}));
+                    return;
+                }
+            };
+            for (name, f) in &forms {
+                acc.eval();
+                match guard(|| { let mut k = Vec::new(); jsonb::convert_to_comparable(f, &mut k); k }) {
+                    Ok(k) if &k == kc => {}
+                    other => acc.vio("crate-produced-form:key-differs-from-the-key-of-the-canonical-encoding", || json!({"a": format!("{:?}", v), "form": name, "form_hex": hex(f), "canonical_hex": hex(&d.bytes[i]), "observed": format!("{:?}", other.map(|k| hex(&k)).map_err(|p| panic_class(&p))), "expected": hex(kc)})),
+                }
+                if f == &d.bytes[i] {
+                    continue;
+                }
+                for j in 0..n {
+                    acc.eval();
+                    acc.nontrivial += 1;
+                    let r = guard(|| (jsonb::compare(f, &d.bytes[j]).ok(), jsonb::compare(&d.bytes[i], &d.bytes[j]).ok(), jsonb::compare(&d.bytes[j], f).ok(), jsonb::compare(&d.bytes[j], &d.bytes[i]).ok()));
+                    match r {
+                        Ok((a, b, c, e)) if a == b && c == e && a.is_some() => {}
+                        other => acc.vio("crate-produced-form:compare-orders-it-differently-from-the-canonical-encoding", || json!({"a": format!("{:?}", v), "form": name, "form_hex": hex(f), "b": format!("{:?}", d.vals[j]), "observed (form:b, canonical:b, b:form, b:canonical)": format!("{:?}", other.map_err(|p| panic_class(&p)))})),
+                    }
+                }
+            }
+        }));
+    }
     let (d1, k1) = (d.clone(), keys.clone());
     sp.push(Space::new("all-pairs", n as u64, move |i, acc| {
         let i = i as usize;
